@@ -483,10 +483,83 @@ let c15 (payload : string) : string =
     Printf.sprintf "%s closed=%s inv=%d" out (if res.o_closed then "1" else "0") (List.length res.o_invoked)
   | _ -> "bad"
 
+
+(* ---------------- C16: graceful shutdown ---------------- *)
+let c16 (payload : string) : string =
+  (* R:<id>:<conn>:<kind>:<ow> ... K:<k> ... C:<c> ... A:<label>:<ev>,<ev>,...  (in this order) *)
+  let toks = split_on ' ' payload in
+  let reqs : (int, (int * string * bool)) Hashtbl.t = Hashtbl.create 16 in
+  let rids = ref [] and ks = ref [] and cs = ref [] in
+  let info (r : nat) : rinfo =
+    match Hashtbl.find_opt reqs (int_of_nat r) with
+    | Some (c, k, ow) ->
+      { r_conn = nat_of_int c;
+        r_kind = (match k with "n" -> KNormal | "h" -> KHeartbeat | "l" -> KLimit | "a" -> KAuthFail | _ -> KReject);
+        r_oneway0 = ow }
+    | None -> { r_conn = nat_of_int 0; r_kind = KNormal; r_oneway0 = false } in
+  let ev_of (t : string) : event0 =
+    let k = String.sub t 0 2 in
+    let a () = nat_of_int (int_of_string (String.sub t 2 (String.length t - 2))) in
+    match k with
+    | "ac" -> EAccept (a ()) | "sv" -> EServe (a ()) | "tp" -> ETop (a ()) | "ar" -> EArrive (a ())
+    | "rd" -> ERead (a ()) | "re" -> EReadErr0 (a ()) | "pc" -> EPeerClose (a ()) | "di" -> EDispatch (a ())
+    | "en" -> EEnter (a ()) | "st" -> EStart (a ()) | "fi" -> EFinish (a ()) | "wr" -> EWrite (a ())
+    | "ex" -> EExit (a ()) | "wd" -> EWaitDone (a ()) | "sb" -> EShutBegin (a ()) | "po" -> EPoll (a ())
+    | "dl" -> EDeadline (a ()) | "cc" -> ECloseConns (a ()) | "cl" -> EClose0 | "ae" -> EAcceptErr
+    | "sr" -> EServeRet | _ -> failwith ("event " ^ t) in
+  (* the highest gate a request in this phase must have reached (see harness/cmd/vh/c16.go) *)
+  let level (r : int) (p : phase) : int =
+    let (_, k, ow) = Hashtbl.find reqs r in
+    match p with
+    | PNone | PArrived -> 0
+    | PGot -> 1
+    | PDropped -> 1
+    | PSpawned | PEntered -> 2
+    | PRunning -> 3
+    | PAnswering -> if ow then 1 else 4
+    | PHandled -> if k = "h" then 4 else if ow then 3 else 4
+    | PWritten | PExited ->
+      (match k with
+       | "h" -> 4
+       | "n" -> if ow then 3 else 5
+       | _ -> if ow then 1 else 5) in
+  let snapshot (label : string) (s : st) : string =
+    let g = String.concat "," (List.map (fun r -> Printf.sprintf "%d=%d" r (level r (s.ph (nat_of_int r)))) !rids) in
+    let d = String.concat "," (List.filter_map (fun r ->
+        if s.answered (nat_of_int r) && s.delivered (nat_of_int r) then Some (string_of_int r) else None) !rids) in
+    let sh = String.concat "," (List.map (fun k -> Printf.sprintf "%d=%s" k
+        (match s.sh (nat_of_int k) with SIdle -> "-" | SWaiting | SClosing _ -> "run" | SDone0 false -> "nil"
+                                       | SDone0 true -> "err" | SLost -> "nil")) !ks) in
+    let v = (match s.serve0 with LAccepting | LWaitDone -> "run" | LReturned true -> "closed" | LReturned false -> "err") in
+    Printf.sprintf "%s:n=%d:g=%s:d=%s:s=%s:v=%s" label (int_of_z s.count) g d sh v in
+  let state = ref init0 in
+  let out = ref [] in
+  List.iter (fun t ->
+    match String.split_on_char ':' t with
+    | ["R"; id; c; k; ow] -> Hashtbl.replace reqs (int_of_string id) (int_of_string c, k, ow = "1");
+      rids := !rids @ [int_of_string id]
+    | ["K"; k] -> ks := !ks @ [int_of_string k]
+    | ["C"; c] -> cs := !cs @ [int_of_string c]
+    | ["A"; label; evs] ->
+      let es = List.map ev_of (split_on ',' evs) in
+      state := run0 info !state es;
+      out := snapshot label !state :: !out
+    | _ -> failwith ("token " ^ t)) toks;
+  let s = !state in
+  let conns = String.concat "," (List.map (fun c ->
+      let cn = nat_of_int c in
+      Printf.sprintf "%d=%s" c
+        (match s.rd cn with
+         | RNone -> "r"
+         | _ -> if is_open (s.cst cn) then "o" else "c")) !cs) in
+  let started = String.concat "," (List.map (fun r -> string_of_int (int_of_nat r)) s.started) in
+  String.concat " | " (List.rev !out) ^ Printf.sprintf " | conns=%s:started=%s:closes=%d" conns started (int_of_nat s.closes)
+
 let () =
   let prop = Sys.argv.(1) in
   let f = match prop with
     | "C12" -> c12
+    | "C16" -> c16
     | "C15" | "C19" -> c15
     | "C20" -> c20
     | "C04" | "C07" -> c04
